@@ -132,6 +132,22 @@ func c05Readback(c *Ctx, s *State, a *Abs, tags []string, trace []Step) []Violat
 }
 
 func c05Trans(c *Ctx, pre *Node, st Step, res *Result, post *State) ([]Violation, bool) {
+	if st.Cmd() == "write-tree" && res.Exit == 0 {
+		// the id printed names a stored tree whose flattened content is exactly the staging area
+		pa, qa := pre.Abs(), post.Abs()
+		if pa.IndexErr != nil || indexConflict(pa) {
+			return nil, true
+		}
+		id := strings.TrimSpace(res.Stdout)
+		flat, err := qa.FlattenTree(id)
+		if err != nil {
+			return []Violation{{Oracle: "write-tree-id-names-staged-tree", Command: "write-tree", Tags: st.Tags, Detail: fmt.Sprintf("write-tree printed %q, which is not a complete stored tree: %v", trunc(id, 60), err)}}, false
+		}
+		if d := diffStrMaps("tree printed by write-tree vs staged entries", pa.IndexMap(), flat, nil); d != "" {
+			return []Violation{{Oracle: "write-tree-id-names-staged-tree", Command: "write-tree", Tags: st.Tags, Detail: d}}, false
+		}
+		return nil, true
+	}
 	if _, ok := commitMsg(st); !ok || res.Exit != 0 {
 		return nil, true
 	}
@@ -189,7 +205,7 @@ func checkC05(e *RunEnv) *CheckResult {
 				}
 				steps = append(steps, Run("add", p), Run("rm", p))
 			}
-			steps = append(steps, Run("commit", "-m", "m"))
+			steps = append(steps, Run("commit", "-m", "m"), Run("write-tree"))
 			return steps
 		},
 		CheckTrans: c05Trans,
